@@ -98,6 +98,11 @@ def run(tier):
     for pre, post in (("", ""), ("", "(b1-4)GlcNAc")):
         cases.append((f"Man(a1-2)[Gal(a1-3)][Fuc(a1-4)][Xyl(b1-6)]Glc{post}", None, set()))
         cases.append((f"Man(a1-2)[Gal(a1-3)][Fuc(a1-4)][Xyl3{tok0}(b1-6)]Glc{post}", f"Man(a1-2)[Gal(a1-3)][Fuc(a1-4)][Xyl(b1-6)]Glc{post}", {"unsupported-modification"}))
+    # detached fragments of one, two and three residues with fully specified inner linkages, alone and two at once
+    for frag in ("Man(a1-4)", "Fuc(a1-2)Gal(b1-3)", "Neu5Ac(a2-3)Gal(b1-4)GlcNAc(b1-3)", "Gal(b1-4)[Fuc(a1-3)]GlcNAc(b1-2)"):
+        for base_ in ("GlcNAc(b1-4)Glc", "Man(a1-3)[Man(a1-6)]Man(b1-4)GlcNAc"):
+            cases.append(("{" + frag + "}" + base_, None, {"detached-fragment"}))
+        cases.append(("{" + frag + "}{Fuc(a1-2)Gal(b1-4)}Glc", None, {"detached-fragment"}))
     # a ring-form letter for which the library has no row of that sugar is an unknown monosaccharide
     rows = [x.split("\x1e") for x in orc.drv.call("librows").split("\x1f") if x]
     have = {"p": set(), "f": set()}
